@@ -534,6 +534,114 @@ static void runAll(Ctx & ctx, UnitReport & rep) {
 }
 #endif
 
+
+// ------------------------------------------------------------------ wide ordered queues (complete enumeration of a family)
+// The BFS units cap the pending events at 3-4, so a sort that is only wrong for LONG lists (an unstable algorithm that is an
+// insertion sort below a threshold, a merge that mishandles long runs) never shows. This family fixes the shape instead of the
+// depth: N pending events for every N up to 40, keys following every pattern of a small set (long runs of equal keys, alternation,
+// ascending, descending, a late minimum, period 3), and every consuming form that (re)sorts: process, processOne/takeEvent one by
+// one, processIf declining a subset (put-back), processUntil stopping at the k-th, with a late enqueue in between.
+#if SEL(13, 3)
+#define VERIF_HAVE_WIDE 1
+namespace wide {
+struct Ev { int id, key; };
+template <typename Cmp> struct CmpName;
+template <> struct CmpName<CmpAsc> { static const char * n() { return "ascending"; } static bool less(int a, int b) { return a < b; } };
+template <> struct CmpName<CmpDesc> { static const char * n() { return "descending"; } static bool less(int a, int b) { return a > b; } };
+template <> struct CmpName<CmpMod2> { static const char * n() { return "mod-2 classes"; } static bool less(int a, int b) { return (a % 2) < (b % 2); } };
+static int patKey(int pat, int i, int n) {
+	switch(pat) {
+	case 0: return 2;                         // all equal
+	case 1: return 1 + (i % 2);               // alternating
+	case 2: return i < n / 2 ? 2 : 1;         // two blocks, wrong way round
+	case 3: return 1 + i;                     // ascending (all distinct)
+	case 4: return n - i;                     // descending (all distinct)
+	case 5: return i == n - 1 ? 1 : 2;        // a late minimum behind a long run of equals
+	case 6: return 1 + (i % 3);               // period 3
+	default: return i == 0 ? 3 : 2;           // an early maximum in front of a long run of equals
+	}
+}
+static const int NPAT = 8;
+static const char * opName(int op) {
+	static const char * n[] = {"process", "processOne x N", "takeEvent x N", "processIf(decline odd ids); enqueue; process", "processIf(decline all); enqueue; process",
+		"processUntil(stop at N/2); enqueue; process", "processIf(accept odd ids) twice; process", "processUntil(stop at 1st); processOne; enqueue; process"};
+	return n[op];
+}
+static const int NOPS = 8;
+template <typename Cmp>
+struct Case {
+	typedef eventpp::EventQueue<int, void(int), PolOrdered<ST, Cmp> > Q;
+	Ctx & ctx;
+	std::vector<Ev> pending; std::vector<int> got, want; int nextId = 1;
+	Case(Ctx & c) : ctx(c) {}
+	void sortM() { std::stable_sort(pending.begin(), pending.end(), [](const Ev & a, const Ev & b) { return CmpName<Cmp>::less(a.key, b.key); }); }
+	void enq(Q & q, int key) { Ev e{nextId++, key}; q.enqueue(key, e.id); pending.push_back(e); sortM(); }
+	void run(int n, int pat, int op, long & evals) {
+		++evals;
+		Q q; pending.clear(); got.clear(); want.clear(); nextId = 1;
+		int maxKey = 0; for(int i = 0; i < n; ++i) maxKey = std::max(maxKey, patKey(pat, i, n));
+		for(int k = 1; k <= maxKey + 1; ++k) q.appendListener(k, [this](int id) { got.push_back(id); });
+		for(int i = 0; i < n; ++i) enq(q, patKey(pat, i, n));
+		auto takeAll = [&]() { for(auto & e : pending) want.push_back(e.id); pending.clear(); };
+		int predCalls = 0;
+		switch(op) {
+		case 0: takeAll(); q.process(); break;
+		case 1: for(int i = 0; i < n; ++i) q.processOne(); takeAll(); break;
+		case 2: for(int i = 0; i < n; ++i) { typename Q::QueuedEvent qe; if(q.takeEvent(&qe)) got.push_back(std::get<0>(qe.arguments)); } takeAll(); break;
+		case 3: case 4: case 6: {
+			for(int round = 0; round < (op == 6 ? 2 : 1); ++round) {
+				std::vector<Ev> keep;
+				for(auto & e : pending) { bool acc = op == 4 ? false : op == 3 ? (e.id % 2 == 0) : (e.id % 2 == 1); if(acc) want.push_back(e.id); else keep.push_back(e); }
+				pending = keep; sortM();
+				q.processIf([op](int id) { return op == 4 ? false : op == 3 ? (id % 2 == 0) : (id % 2 == 1); });
+			}
+			if(op != 6) enq(q, patKey(pat, 0, n));
+			takeAll(); q.process();
+			break;
+		}
+		case 5: {
+			int stop = n / 2;     // the predicate answers true at its (stop+1)-th call: `stop` events are dispatched
+			for(int i = 0; i < stop; ++i) want.push_back(pending[i].id);
+			pending.erase(pending.begin(), pending.begin() + stop); sortM();
+			q.processUntil([&predCalls, stop](int) { return predCalls++ == stop; });
+			enq(q, patKey(pat, n - 1, n));
+			takeAll(); q.process();
+			break;
+		}
+		case 7: {
+			q.processUntil([](int) { return true; });
+			sortM();
+			if(!pending.empty()) { want.push_back(pending.front().id); pending.erase(pending.begin()); }
+			q.processOne();
+			enq(q, patKey(pat, 0, n));
+			takeAll(); q.process();
+			break;
+		}
+		}
+		for(int x : got) ctx.obs((uint64_t)x);
+		if(got != want && !ctx.failed) {
+			size_t i = 0; while(i < got.size() && i < want.size() && got[i] == want[i]) ++i;
+			std::string ks; for(int j = 0; j < n && j < 48; ++j) ks += fmt("%d ", patKey(pat, j, n));
+			ctx.fail(got.size() != want.size() ? "wide-event-count-differs" : "wide-order-differs",
+				fmt("OrderedQueueList (%s), %d events with keys [%s], %s: %zu events delivered, %zu expected; first difference at position %zu (event %d instead of %d) - not the stable comparator order",
+					CmpName<Cmp>::n(), n, ks.c_str(), opName(op), got.size(), want.size(), i, i < got.size() ? got[i] : -1, i < want.size() ? want[i] : -1));
+		}
+		if(!q.emptyQueue() && !ctx.failed) ctx.fail("wide-not-empty", fmt("OrderedQueueList (%s), %d events, %s: queue not empty afterwards", CmpName<Cmp>::n(), n, opName(op)));
+	}
+};
+template <typename Cmp> static void runCmp(Ctx & ctx, long & evals, int maxN) {
+	Case<Cmp> c(ctx);
+	for(int n = 1; n <= maxN && !ctx.failed; ++n) for(int pat = 0; pat < NPAT && !ctx.failed; ++pat) for(int op = 0; op < NOPS && !ctx.failed; ++op) c.run(n, pat, op, evals);
+}
+static void runAll(Ctx & ctx, UnitReport & rep, int tier) {
+	long evals = 0; int maxN = tier ? 96 : 40;
+	runCmp<CmpAsc>(ctx, evals, maxN); runCmp<CmpDesc>(ctx, evals, maxN); runCmp<CmpMod2>(ctx, evals, maxN);
+	ctx.executions = evals; rep.num["executions"] = (double)evals; rep.num["max_pending"] = maxN; rep.num["key_patterns"] = NPAT; rep.num["call_forms"] = NOPS; rep.num["comparators"] = 3;
+	ctx.samples.push_back("OrderedQueueList ascending, 17 events all with key 2: processIf(decline all); enqueue(key 2); process -> ids 1..18 in enqueue order");
+}
+}
+#endif
+
 static struct Register {
 	Register() {
 		Cfg flat; flat.K = 3;
@@ -584,6 +692,14 @@ static struct Register {
 		  { Cfg c3 = c; c3.K = 3; addUnit<PolOrdered<ST, CmpMod2> >("C13/flat/mod2-classes-K3", 1, c3, 5, 30, 0, 0); }
 		  Cfg n = c; n.nested = true; n.K = 3;
 		  addUnit<PolOrdered<ST, CmpMod2> >("C13/nested/mod2-classes", 0, n, 4, 4, 1, 2); }
+#endif
+#ifdef VERIF_HAVE_WIDE
+		{
+			Unit u; u.name = "C13/wide-queues"; u.minTier = 0;
+			u.run = [](Ctx & ctx, UnitReport & rep, int tier) { ctx.ex.beginExecution(); wide::runAll(ctx, rep, tier); rep.str["config"] = "EventQueue<int, void(int)> with OrderedQueueList x 3 comparators, N = 1..40 (thorough: 96) pending events x 8 key patterns x 8 consuming forms: complete enumeration of the family"; };
+			u.replay = [](Ctx & ctx, const std::vector<int> &) { UnitReport r; ctx.tracing = true; wide::runAll(ctx, r, ctx.tier); };
+			units().push_back(u);
+		}
 #endif
 #if SEL(8, 0)
 		{ Cfg c = nestC; c.ledgerOnly = true;
